@@ -1,4 +1,5 @@
 #![allow(dead_code)]
+#![allow(unexpected_cfgs)]
 pub mod configurations;
 mod constants;
 pub mod data_client;
